@@ -65,7 +65,7 @@ MatchNext(x) == /\ Len(stk') = x.sl /\ Len(fr') = x.fl /\ ip' = x.ip /\ code' = 
                 /\ (IF fr' = << >> THEN 0 ELSE fr'[Len(fr')].sp) = x.sp
 
 ResetVm == /\ stk' = << >> /\ fr' = << >> /\ ip' = 0 /\ code' = 0 /\ pc' = 1 /\ inst' = << >>
-           /\ marks' = [m \in 1..NMarks |-> NoMark] /\ phase' = "exited" /\ fresh' = 1 /\ saved' = << >>
+           /\ marks' = << >> /\ phase' = "exited" /\ fresh' = 1 /\ saved' = << >>
            /\ last' = "Reset" /\ iid' = <<0, 1, 0>>
 
 TInit == /\ Init /\ l = 1 /\ cur = NoInstr /\ pend = << >> /\ cc = NoInstr /\ skip = FALSE /\ bad = {} /\ unm = 0
@@ -83,7 +83,14 @@ UnitEv == /\ Is({"unit"}) /\ Adv
 TruncEv == /\ Is({"trunc"}) /\ Adv /\ skip' = TRUE /\ UNCHANGED <<vars, cur, pend, cc, bad, unm>>
 Skipped == /\ l <= N /\ skip /\ E.k # "case" /\ Adv /\ UNCHANGED <<vars, cur, pend, cc, skip, bad, unm>>
 
------------------------------------------------------------------------------
+------------------------------------------------------------------------\* the instruction in flight is `cur`, the state after it is the step event E
+Op == cur.op
+NA == NArgs(cur.op, cur.pl, cur.n1p, cur.n2p)
+\* (after an apply event the callee value and the operands of `apply` itself are gone already)
+Extra == IF cur.k = "applied" THEN 0 ELSE CalleePops(cur.op)
+
+
+-----
 (* enter: vm() starts or restarts *)
 
 \* top-level code of a unit (depth 0) starts on an idle engine: nothing of an earlier evaluation may be
@@ -105,14 +112,22 @@ EnterDeeper ==
   /\ Is({"enter"}) /\ E.d = Len(inst) + 1 /\ Adv
   /\ phase \in {"run", "exited", "failed"}
   /\ phase' = "run"
-  /\ E.sl >= SLen
+  \* two calling conventions of builtins: the operands stay on the stack during the call (they are removed
+  \* when it returns), or they were drained before the builtin ran (call_builtin_func) - then the stack is
+  \* lower by exactly the operands of the instruction in flight that were still there
+  /\ LET isCall == cur # NoInstr /\ Op \in (CallOps \cup TailCallOps) \ FusedRead
+         used   == IF cur = NoInstr THEN 0 ELSE cur.a
+         avail  == IF isCall THEN NA + Extra - used ELSE 0
+         keep   == Min2(SLen, E.sp) IN
+       /\ SLen - keep \in {0, avail} /\ keep >= Top /\ E.sl >= keep
+       /\ stk' = Prefix(stk, keep) \o [i \in 1..(E.sl - keep) |-> 0]
+       /\ pend' = Append(pend, IF cur = NoInstr THEN cur ELSE [cur EXCEPT !.a = used + (SLen - keep)])
   /\ inst' = Append(inst, [ip |-> ip, code |-> code, pc |-> pc, base |-> Len(fr), iid |-> iid[1], cbase |-> iid[3]])
   /\ iid' = <<iid[2], iid[2] + 1, Len(fr)>>
-  /\ fr' = Append(fr, Frame(E.sp, ip, code, FALSE, 0)) /\ saved' = Append(saved, Prefix(stk, Min2(E.sp, SLen)))
-  /\ stk' = stk \o [i \in 1..(E.sl - SLen) |-> 0]
+  /\ fr' = Append(fr, Frame(E.sp, ip, code, FALSE, 0)) /\ saved' = Append(saved, << >>)
   /\ ip' = E.ip /\ code' = E.c /\ pc' = E.pc /\ last' = "EnterNested"
   /\ MatchNext(E)
-  /\ pend' = Append(pend, cur) /\ cur' = NoInstr
+  /\ cur' = NoInstr
   /\ UNCHANGED <<marks, fresh, cc, skip, bad, unm>>
 
 -----------------------------------------------------------------------------
@@ -122,11 +137,6 @@ EnterDeeper ==
 StepFirst ==
   /\ Is({"step"}) /\ cur = NoInstr /\ cc = NoInstr /\ phase = "run" /\ MatchNow(E) /\ Adv
   /\ cur' = E /\ UNCHANGED <<vars, pend, cc, skip, bad, unm>>
-
-\* the instruction in flight is `cur`, the state after it is the step event E
-Op == cur.op
-NA == NArgs(cur.op, cur.pl, cur.n1p, cur.n2p)
-Extra == CalleePops(cur.op)
 
 \* ... it stayed in its frame
 DoneLocal ==
@@ -138,7 +148,7 @@ DoneLocal ==
 DonePrimCall ==
   /\ Op \in CallOps \cup TailCallOps /\ ~(Op \in FusedRead) /\ E.fl = cur.fl /\ E.c = cur.c
   /\ E.ip = AfterCallIp(Op, cur.ip)
-  /\ Local(NA + Extra, 1, E.ip)
+  /\ Local(NA + Extra - cur.a, 1, E.ip)      \* (cur.a: operands a re-entering builtin had drained already)
 \* ... a call instruction entered a closure
 DoneCall ==
   /\ Op \in CallOps /\ ~(Op \in FusedRead) /\ E.fl = cur.fl + 1 /\ E.ip = 0
@@ -194,11 +204,11 @@ StepAfterCapture ==
   \* local is the continuation
   /\ SLen >= cc.sl
   /\ LET m == cc.a IN
-       /\ m \in 1..NMarks
-       /\ marks' = [marks EXCEPT ![m] = [st |-> "open", fr |-> fr, stk |-> Prefix(stk, cc.sl), sv |-> saved,
-                                         ip |-> cc.ip, code |-> cc.c, pc |-> cc.pc, iid |-> iid[1]]]
+       /\ m >= 1
+       /\ marks' = SetMark(m, [st |-> "open", fr |-> fr, stk |-> Prefix(stk, cc.sl), sv |-> saved,
+                                         ip |-> cc.ip, code |-> cc.c, pc |-> cc.pc, iid |-> iid[1]])
        /\ fr' = Append(fr, Frame(cc.sl, cc.ip + 1, cc.c, FALSE, m))
-  /\ saved' = Append(saved, Prefix(stk, cc.sl))
+  /\ saved' = Append(saved, << >>)
   /\ stk' = Prefix(stk, cc.sl) \o <<0>>
   /\ ip' = 0 /\ code' = E.c /\ pc' = pc + 1 /\ last' = "Capture"
   /\ UNCHANGED <<inst, phase, fresh, iid, pend, skip, bad, unm>>
@@ -210,7 +220,7 @@ StepAfterCapture ==
 InvokeEv ==
   /\ Is({"invoke"}) /\ phase = "run" /\ Adv
   /\ LET m == E.a IN
-       IF m \in 1..NMarks /\ marks[m].st # "none"
+       IF m \in DOMAIN marks /\ marks[m].st # "none"
        THEN /\ IF /\ E.ip = marks[m].ip /\ E.c = marks[m].code /\ E.sl = Len(marks[m].stk)
                   /\ E.fl = Len(marks[m].fr) /\ E.pc = marks[m].pc
                 THEN (IF marks[m].iid = iid[1] THEN UNCHANGED bad ELSE Flag("C08-continuation-invoked-from-another-instalment"))
@@ -223,6 +233,19 @@ InvokeEv ==
             /\ Resync([E EXCEPT !.ip = E.ip + 1, !.sl = E.sl + 1]) /\ UNCHANGED bad
   /\ cur' = NoInstr /\ cc' = NoInstr /\ UNCHANGED <<pend, skip, unm>>
 
+\* the builtin `apply`, called by the instruction in flight, replaced its own operands by the elements
+\* of the list (E.a of them) and now calls / tail calls a closure with them: from here on the
+\* instruction in flight is a call with E.a operands
+ApplyEv ==
+  /\ Is({"apply"}) /\ cur # NoInstr /\ cur.k = "step" /\ cc = NoInstr /\ phase = "run" /\ Adv
+  /\ Op \in (CallOps \cup TailCallOps) \ FusedRead
+  /\ SLen - NA - Extra >= Top
+  /\ stk' = Prefix(stk, SLen - NA - Extra) \o [i \in 1..E.a |-> 0]
+  /\ Len(stk') = E.sl /\ E.fl = Len(fr)
+  /\ cur' = [cur EXCEPT !.k = "applied", !.pl = E.a, !.n1p = E.a, !.n2p = E.a]
+  /\ last' = "Apply"
+  /\ UNCHANGED <<fr, ip, code, pc, inst, marks, phase, fresh, saved, iid, pend, cc, skip, bad, unm>>
+
 \* call-with-exception-handler pushed the frame of its thunk
 HFrameEv ==
   /\ Is({"hframe"}) /\ cur # NoInstr /\ phase = "run" /\ Adv
@@ -232,7 +255,7 @@ HFrameEv ==
        /\ nsl <= SLen /\ nsl >= Top
        /\ stk' = Prefix(stk, nsl)
        /\ fr' = Append(fr, Frame(nsl, RetIp(Op, cur.ip), cur.c, TRUE, 0))
-       /\ saved' = Append(saved, Prefix(stk, nsl))
+       /\ saved' = Append(saved, << >>)
   /\ ip' = 0 /\ code' = E.c /\ pc' = pc + 1 /\ last' = "HandlerFrame"
   /\ UNCHANGED <<inst, marks, phase, fresh, iid, pend, cc, skip, bad, unm>>
   /\ MatchNext(E)
@@ -254,10 +277,12 @@ ExitOk ==
 \* carried a handler
 ExitErr ==
   /\ Is({"exit_err"}) /\ phase = "run" /\ Adv
+  \* the failing instruction had consumed SLen - E.sl of its operands
+  /\ E.sl <= SLen
   /\ IF l < N /\ Rec[l + 1].k = "handler"
-       THEN Raise /\ UNCHANGED bad
-       ELSE IF HandlerIdx = 0 THEN RaiseUnhandled /\ UNCHANGED bad
-            ELSE /\ UnwindAllBody /\ Flag("C08-error-passed-a-frame-that-carries-a-handler")
+       THEN Raise(SLen - E.sl) /\ UNCHANGED bad
+       ELSE IF HandlerIdx = 0 THEN RaiseUnhandled(SLen - E.sl) /\ UNCHANGED bad
+            ELSE /\ UnwindAllBody(Prefix(stk, E.sl)) /\ Flag("C08-error-passed-a-frame-that-carries-a-handler")
   /\ cur' = NoInstr /\ cc' = NoInstr /\ UNCHANGED <<pend, skip, unm>>
 
 \* the unwinder found a handler: the event shows the state at the entry of the handler procedure
@@ -275,17 +300,30 @@ HandlerEv ==
 \* of the instruction in flight (which continues), or the host on an idle engine (idle again)
 LeaveEv ==
   /\ Is({"leave"}) /\ phase \in {"exited", "failed"} /\ inst # << >> /\ pend # << >> /\ Adv
-  /\ LET host == pend[Len(pend)] = NoInstr IN
+  /\ LET host == pend[Len(pend)] = NoInstr
+         \* the caller was another interpreter object than the one whose instruction is in flight (the
+         \* builtin `eval` runs a whole evaluation on a fresh one): not modelled, the case is left here
+         foreign == ~host /\ E.c # inst[Len(inst)].code IN
        /\ LeaveTo(IF host /\ Len(inst) = 1 THEN "exited" ELSE "run")
        /\ IF \/ (host /\ Len(stk') = E.sl /\ Len(fr') = E.fl)
-             \/ (Len(stk') = E.sl /\ Len(fr') = E.fl /\ ip' = E.ip /\ code' = E.c /\ pc' = E.pc)
+             \* (a builtin called through call_builtin_func runs with ip already advanced past its call)
+             \/ (Len(stk') = E.sl /\ Len(fr') = E.fl /\ code' = E.c /\ pc' = E.pc
+                 /\ E.ip \in {ip', AfterCallIp(pend[Len(pend)].op, ip')})
+             \/ foreign
             THEN UNCHANGED bad ELSE Flag("C08-caller-state-not-restored-after-a-nested-call")
+       /\ skip' = foreign /\ unm' = IF foreign THEN unm + 1 ELSE unm
   /\ cur' = pend[Len(pend)] /\ pend' = Front(pend)
-  /\ UNCHANGED <<cc, skip, unm>>
+  /\ UNCHANGED <<cc>>
+
+\* a fresh interpreter object starts at depth 0 while an instruction of this one is in flight (`eval`,
+\* a builtin that runs a nested evaluation): not modelled, the case is left here
+EnterForeign ==
+  /\ Is({"enter"}) /\ phase = "run" /\ cur # NoInstr /\ E.d <= Len(inst) /\ Adv
+  /\ skip' = TRUE /\ unm' = unm + 1 /\ UNCHANGED <<vars, cur, pend, cc, bad>>
 
 -----------------------------------------------------------------------------
-TNext == CaseEv \/ UnitEv \/ TruncEv \/ Skipped \/ EnterTop \/ EnterAgain \/ EnterDeeper
-         \/ StepFirst \/ StepDone \/ CaptureEv \/ StepAfterCapture \/ InvokeEv \/ HFrameEv
+TNext == CaseEv \/ UnitEv \/ TruncEv \/ Skipped \/ EnterTop \/ EnterAgain \/ EnterDeeper \/ EnterForeign
+         \/ StepFirst \/ StepDone \/ ApplyEv \/ CaptureEv \/ StepAfterCapture \/ InvokeEv \/ HFrameEv
          \/ ExitOk \/ ExitErr \/ HandlerEv \/ LeaveEv
 TSpec == TInit /\ [][TNext]_allvars
 
